@@ -263,7 +263,7 @@ class Prop(fw.PropBase):
         quick = self.tier == 'quick'
         refs = self.refs()
         cases = self.corpus_cases() + [self.WITNESS_D16]
-        n_rand = 450 if quick else 6000
+        n_rand = 900 if quick else 7000
         for i in range(n_rand):
             n = self.rng.choice([1, 2, 2, 3, 3, 4, 5, 6, 8, 12]) if i % 3 else self.rng.randint(1, 12)
             cases.append(gen_case(self.rng, refs, n, wild=(i % 4 == 0), tier=self.tier))
@@ -276,10 +276,8 @@ class Prop(fw.PropBase):
             shapes.append([self._mini(b, q, False), None])
             shapes.append([None, self._mini(b, q, True)])
         self.n_shapes = len(shapes)
-        pool = shapes if not quick else [shapes[i] for i in sorted(self.rng.sample(range(len(shapes)), 14))]
+        pool = shapes
         kmax = 2 if quick else 3
-        if not quick:
-            pool = [shapes[i] for i in sorted(self.rng.sample(range(len(shapes)), 22))]
         for k in range(1, kmax + 1):
             for combo in itertools.combinations_with_replacement(range(len(pool)), k):
                 for ds in (False, True):
@@ -340,11 +338,11 @@ class Prop(fw.PropBase):
             'molecules_with_all_permutations': sum(1 for c in cases if len(c['orders']) >= 6 and len(c['frags']) >= 3),
             'tie_positions_seen': ties, 'positions_without_any_vote_seen': nonly, 'mate_quality_tie_calls_seen': mate_ties,
             'impl_exceptions_seen': errs, 'pick_best_cases': len(picks),
-            'exhaustive': {'scope': 'multisets of 1..%d fragments drawn from %s of the %d one-column fragment shapes '
-                                    '(calls A/C/N x quality 20/30 per mate, pairs and single mates), dove_safe on/off, '
-                                    'both orders' % (2 if self.tier == 'quick' else 3,
-                                                     '14 sampled' if self.tier == 'quick' else '22 sampled', self.n_shapes),
-                           'cases': self.n_exh},
+            'exhaustive': False,
+            'small_scope_enumeration': {
+                'scope': 'complete: every multiset of 1..%d fragments over all %d one-column fragment shapes (mate calls '
+                         'A/C/N x quality 20/30, pairs, R1-only, R2-only), dove_safe on/off, both insertion orders'
+                         % (2 if self.tier == 'quick' else 3, self.n_shapes), 'cases': self.n_exh},
         })
         if not self.model_ok:
             return
@@ -361,12 +359,22 @@ class Prop(fw.PropBase):
             got = code_of(rc[ci]['outs'][oi])
             if got != m:
                 dis.append({'what': 'Molecule.get_consensus', 'case': ci, 'order': cases[ci]['orders'][oi], 'model': m, 'impl': got})
-        # specification (mode 2) evaluated on the implementation's outputs
+        # specification evaluated on the implementation's outputs: (a) python transcription of C13_majority on every
+        # output, (b) the Coq specb (mode 2, the same predicate C13_specb_sound is about) on a sample
+        n_py = 0
+        for ci, (c, r) in enumerate(zip(cases, rc)):
+            for kind, o, g, exp in self.violations_of(c, r):
+                dis.append({'what': 'python brute-force vote disagrees with implementation (%s)' % kind, 'case': ci,
+                            'order': o, 'impl': g, 'expected': exp})
+            if spec_consensus(c['ds'], r['minput'], head=self.head) is not None:
+                n_py += len(c['orders'])
         spec_jobs, spec_idx = [], []
-        for (ci, oi), j in zip(index, jobs):
-            got = code_of(rc[ci]['outs'][oi])
-            if got[0] == 0 and pre[ci] == 1 and not self.head:
-                spec_jobs.append([j, got[1]]); spec_idx.append((ci, oi))
+        cand = [n for n, (ci, oi) in enumerate(index)
+                if pre[ci] == 1 and not self.head and code_of(rc[ci]['outs'][oi])[0] == 0 and len(jobs[n][1]) <= 10]
+        self.rng.shuffle(cand)
+        for n in cand[:(500 if self.tier == 'quick' else 6000)]:
+            ci, oi = index[n]
+            spec_jobs.append([jobs[n], code_of(rc[ci]['outs'][oi])[1]]); spec_idx.append((ci, oi))
         sp = fw.run_model('C13', 2, spec_jobs) if spec_jobs else []
         for (ci, oi), ok in zip(spec_idx, sp):
             if ok != 1:
@@ -395,6 +403,7 @@ class Prop(fw.PropBase):
         self.cov['traces_validated_against_impl'] = len(jobs) + len(spec_jobs) + len(ident) + len(fjobs) + len(picks)
         self.cov['precondition_hit_rate'] = round(sum(pre) / max(1, len(pre)), 4)
         self.cov['specb_evaluated_on_impl_outputs'] = len(spec_jobs)
+        self.cov['python_majority_oracle_evaluated_on_impl_outputs'] = n_py
         self.cov['disagreements'] = len(dis)
         k = [i for i in range(len(jobs)) if mout[i][0] == 0 and mout[i][1]]
         sample = [k[i * len(k) // 3] for i in range(3)] if len(k) >= 3 else k
